@@ -147,17 +147,25 @@ Qed.
 Lemma flush_clean st current : NoDup (map fst current) -> Clean st current -> Clean (flush current st) current.
 Proof. intros ND HC f c Hf _. apply flush_current; assumption. Qed.
 
+Lemma flag_all_clean names st current : Clean st current -> Clean (flag_all names st) current.
+Proof.
+  intros HC f c Hf Hd. unfold flag_all in *. cbn [fs_dirty fs_disk] in *.
+  rewrite str_mem_app in Hd. apply orb_false_iff in Hd. destruct Hd as [Hd _]. apply HC; assumption.
+Qed.
+
 (* any sequence of modifications and saves *)
 Inductive Reached : fstate -> files -> Prop :=
 | R_start : Reached (mkfs [] []) []
 | R_modify st before after : Reached st before -> Reached (mark before after st) after
+| R_flag st names current : Reached st current -> Reached (flag_all names st) current
 | R_save st current : Reached st current -> NoDup (map fst current) -> Reached (flush current st) current.
 
 Theorem reached_clean st current : Reached st current -> Clean st current.
 Proof.
-  induction 1 as [|st before after H IH|st current H IH ND].
+  induction 1 as [|st before after H IH|st names current H IH|st current H IH ND].
   - exact Clean_start.
   - apply mark_clean. exact IH.
+  - apply flag_all_clean. exact IH.
   - apply flush_clean; assumption.
 Qed.
 
@@ -167,13 +175,13 @@ Theorem save_after_any_history st current :
 Proof. intros H ND. apply flush_current; [exact ND|apply reached_clean; exact H]. Qed.
 
 (* the histories of the correspondence run: any operations, saves anywhere *)
-Theorem save_run_reached {S X} (step : S -> X -> S) (want : S -> files) :
-  (forall s, NoDup (map fst (want s))) ->
-  forall ops s st, Reached st (want s) ->
-  Reached (snd (save_run step want ops s st)) (want (fst (save_run step want ops s st))).
+Theorem save_run_reached {S X} (step : S -> X -> S) (cur : S -> files) (always : S -> list str) :
+  (forall s, NoDup (map fst (cur s))) ->
+  forall ops s st, Reached st (cur s) ->
+  Reached (snd (save_run step cur always ops s st)) (cur (fst (save_run step cur always ops s st))).
 Proof.
   intros ND. induction ops as [|[x|] ops IH]; intros s st H; cbn [save_run].
   - exact H.
   - apply IH. apply R_modify. exact H.
-  - apply IH. apply R_save; [exact H|apply ND].
+  - apply IH. apply R_save; [apply R_flag; exact H|apply ND].
 Qed.
